@@ -352,6 +352,31 @@ def rule_refresh(ctx):
         if key not in seen:
             ctx.bad("WR.REFRESH", "las.LASFile.update_start_stop_step#%s" % key, uf, uf.node,
                     "update_start_stop_step never stores well[%r].value" % key)
+    # 2b. a one-sample index: index[1] does not exist.  The read of index[1] must not be able to happen before STRT and STOP were
+    #     derived (its IndexError is swallowed by the surrounding handler and would skip them): it is either evaluated after them
+    #     or under the single-sample test on the STRT/STOP values
+    ucd = ControlDependence(ucfg)
+    one_reads = []
+    for node in ucfg.nodes:
+        if node.ast is None or node.kind not in ("stmt", "test"):
+            continue
+        for x in walk_expr_shallow(node.ast):
+            if isinstance(x, ast.Subscript) and isinstance(x.ctx, ast.Load) and isinstance(x.slice, ast.Constant) and x.slice.value == 1 \
+                    and "index" in ast.unparse(x.value):
+                one_reads.append((node.id, x))
+    # the statements that give STRT / STOP their derived value: assignments to a variable named after them (STRT, values__STOP ..)
+    derive = [n_.id for n_ in ucfg.nodes if n_.kind == "stmt" and isinstance(n_.ast, ast.Assign) and any(
+        isinstance(t_, ast.Name) and ("STRT" in t_.id or "STOP" in t_.id) for t_ in n_.ast.targets)]
+    for nid, x in one_reads:
+        guarded = any(ucfg.nodes[tn].kind == "test" and isinstance(c_, ast.Compare) and isinstance(c_.ops[0], (ast.NotEq, ast.Eq))
+                      and {"STRT", "STOP"} <= {w for n2 in ast.walk(c_) if isinstance(n2, ast.Name) for w in ("STRT", "STOP") if w in n2.id}
+                      for (tn, lab) in ucd.transitive(nid) for c_ in ast.walk(ucfg.nodes[tn].ast))
+        later = [d for d in derive if d != nid and ucfg.find_path(nid, [d], skip_labels=EXC)]
+        ctx.check(guarded or not later, "WR.REFRESH", "las.LASFile.update_start_stop_step#single-sample", uf, x,
+                  "index[1] is read only after STRT and STOP were derived, or under the single-sample test",
+                  "`%s` is evaluated before STRT/STOP are derived and outside the `STOP != STRT` test: for a one-sample index it raises "
+                  "IndexError, the handler swallows it, and STRT/STOP are written as they were (0 for a new file) instead of the index "
+                  "value" % unparse(x))
     # 3. unit alignment on every path before the first output
     ucalls = []
     for sub in walk_shallow(fi.node):
@@ -406,6 +431,14 @@ def rule_refresh(ctx):
                     and isinstance(t.value.slice, ast.Constant) and t.value.slice.value == 0
                     and ast.unparse(t.value.value).endswith("curves")):
                 stores["curve0"] = ast.unparse(sub.value)
+            # `ic = self.curves[0]` (or None when there is no curve) ... `ic.unit = unit`
+            if isinstance(t, ast.Attribute) and t.attr == "unit" and isinstance(t.value, ast.Name):
+                dfs = [a_.value for a_ in walk_shallow(af.node) if isinstance(a_, ast.Assign) and any(
+                    isinstance(t_, ast.Name) and t_.id == t.value.id for t_ in a_.targets)]
+                real = [d for d in dfs if not (isinstance(d, ast.Constant) and d.value is None)]
+                if real and all(isinstance(d, ast.Subscript) and isinstance(d.slice, ast.Constant) and d.slice.value == 0
+                                and ast.unparse(d.value).endswith("curves") for d in real):
+                    stores["curve0"] = ast.unparse(sub.value)
     site = "las.LASFile.update_units_from_index_curve#stores"
     vals = set(stores.values())
     if set(stores) >= {"STRT", "STOP", "STEP", "curve0"} and len(vals) == 1:
@@ -620,3 +653,30 @@ def rule_frame_replace(ctx):
         ctx.check(ok, "WR.FRAME", site, fi, c, "replacing an item renumbers only the group of the new item's name",
                   "set_item renumbers with `%s`: replacing the WRAP/VERS item in write() then renames every other item whose ':n' suffix "
                   "is not what a fresh numbering would give (e.g. SRC:2, SRC:3 become SRC:1, SRC:2 in memory)" % unparse(c))
+
+
+def rule_refresh_precision(ctx):
+    """WR.REFRESH (precision): the STRT/STOP/STEP values that a refresh derives are formatted by update_start_stop_step's own
+    default format; the data format of write() (`fmt`, `column_fmt`) is for the ~ASCII section.  Handing it on rounds the header
+    values to the precision chosen for the data while the index column may be written finer (column_fmt={0: ...})."""
+    p = ctx.p
+    r = get_resolver(p)
+    n = 0
+    for fi in write_family_funcs(p):
+        params = set(fi.params())
+        for c in walk_shallow(fi.node):
+            if isinstance(c, ast.Call) and any(t.qual == "las.LASFile.update_start_stop_step" for t in r.callees(fi, c)[0]):
+                n += 1
+                leaked = sorted({x.id for a in list(c.args) + [k.value for k in c.keywords] for x in ast.walk(a)
+                                 if isinstance(x, ast.Name) and x.id in params and "fmt" in x.id})
+                ctx.check(not leaked, "WR.REFRESH", "%s#refresh-format" % fi.qual, fi, c,
+                          "the refresh formats STRT/STOP/STEP with its own default format",
+                          "`%s` hands the data format %s to the refresh: the derived STRT/STOP/STEP are rounded like the data (STEP 0.12 for "
+                          "a 0.125 step with fmt='%%.2f') while the index column can be written with a finer column format" % (unparse(c), leaked))
+    if n == 0:
+        ctx.undecided("WR.REFRESH", "writer.write#refresh-format", None, 0, "no call of update_start_stop_step in the write family")
+
+
+def write_family_funcs(p):
+    from rules.common import write_family
+    return list(write_family(p))
